@@ -50,6 +50,11 @@ type Op struct {
 	// login
 	State string `json:"state,omitempty"` // what the application's state function returns
 	Extra string `json:"extra,omitempty"` // additional URL parameter option of the application
+	// the browser's request to the RP's login URL: whatever a link, a form or a script on any site makes the browser send
+	LoginMethod string `json:"login_method,omitempty"` // "" = GET | POST
+	LoginQuery  []KV   `json:"login_query,omitempty"`  // query parameters of the login URL, in order, duplicates possible
+	LoginForm   []KV   `json:"login_form,omitempty"`   // POST: the form body
+	LoginMuts   []Mut  `json:"login_muts,omitempty"`   // manipulations of the jar before the login request is sent
 
 	// callback
 	Attempt    int    `json:"attempt,omitempty"` // login attempt whose state / code the query refers to (modulo attempts so far)
@@ -60,6 +65,12 @@ type Op struct {
 	Method     string `json:"method,omitempty"`  // GET | POST
 	Muts       []Mut  `json:"muts,omitempty"`
 	TokenExtra bool   `json:"token_extra,omitempty"` // application passes an additional token-request parameter option
+}
+
+// KV is one request parameter.
+type KV struct {
+	K string `json:"k"`
+	V string `json:"v"`
 }
 
 // KeyPair: the two keys of one cookie handler, hex encoded.
@@ -164,6 +175,108 @@ func genMutFree(t *rapid.T, label string) Mut {
 		m.Lit = rapid.StringMatching(`[A-Za-z0-9_-]{1,12}`).Draw(t, label+"lit")
 	}
 	return m
+}
+
+// ---- the login request ------------------------------------------------------------------
+//
+// The request that reaches rp.AuthURLHandler is chosen by whoever made the browser open the login URL (a link on any site,
+// an auto-submitted form): its query, its form body and the cookies the browser holds for the RP origin are inputs. The
+// statement binds the authorization URL to the RP's CONFIGURATION and to the cookies of the same response, whatever the
+// login request says.
+
+// ownedParams: the parameters of the authorization request the statement binds (client, redirect URI, scopes, state, the
+// PKCE pair) plus response_type; otherParams: further OAuth / OIDC parameter names and names applications use.
+var ownedParams = []string{"state", "client_id", "redirect_uri", "scope", "response_type", "code_challenge", "code_challenge_method"}
+var otherParams = []string{"nonce", "prompt", "login_hint", "ui_locales", "acr_values", "max_age", "response_mode", "display", "id_token_hint",
+	"claims", "request", "request_uri", "code", "code_verifier", "resource", "audience", "requestID", "return_to", "foo", ""}
+
+func genLoginParam(t *rapid.T, label string, c *Case, prev []string) KV {
+	name := ""
+	switch rapid.IntRange(0, 9).Draw(t, label+"nk") {
+	case 0, 1, 2, 3, 4:
+		name = rapid.SampledFrom(ownedParams).Draw(t, label+"name")
+	case 5, 6, 7, 8:
+		name = rapid.SampledFrom(otherParams).Draw(t, label+"name")
+	default:
+		name = rapid.StringMatching(`[A-Za-z_.\[\]-]{1,10}`).Draw(t, label+"name")
+	}
+	var vals []string
+	switch name {
+	case "state":
+		vals = append([]string{"attacker-state", "", "st-1"}, prev...)
+	case "client_id":
+		vals = []string{"other-client", clientID, ""}
+	case "redirect_uri":
+		vals = []string{"https://evil.example/cb", rpOrigin + c.RedirectPath, rpOrigin + "/other", ""}
+	case "scope":
+		vals = []string{"openid", "openid admin", "offline_access", strings.Join(c.Scopes, " "), ""}
+	case "response_type":
+		vals = []string{"code", "token", "id_token token", "code id_token", ""}
+	case "code_challenge":
+		// S256 of the RFC 7636 example verifier, a plain challenge, junk
+		vals = []string{"E9Melhoa2OwvFrEMTJguCHaoeK1t8URWbuGJSstw-cM", "dBjftJeZ4CVP-mB92K27uhbUJU1p1r_wW1gFWFOEjXk", "attacker-chosen-challenge", "x", ""}
+	case "code_challenge_method":
+		vals = []string{"plain", "plain", "S256", "s256", "none", ""}
+	case "prompt":
+		vals = []string{"none", "login", "consent select_account"}
+	case "response_mode":
+		vals = []string{"query", "fragment", "form_post"}
+	case "max_age":
+		vals = []string{"0", "3600", "-1"}
+	case "code_verifier":
+		vals = []string{"dBjftJeZ4CVP-mB92K27uhbUJU1p1r_wW1gFWFOEjXk", "v"}
+	}
+	if len(vals) == 0 || rapid.IntRange(0, 5).Draw(t, label+"free") == 0 {
+		return KV{name, rapid.StringMatching(`[A-Za-z0-9 _.:/?&=%+~-]{0,24}`).Draw(t, label+"val")}
+	}
+	return KV{name, rapid.SampledFrom(vals).Draw(t, label+"val")}
+}
+
+func genLoginParams(t *rapid.T, label string, c *Case, prev []string) []KV {
+	n := rapid.SampledFrom([]int{1, 1, 2, 2, 3, 4, 6}).Draw(t, label+"n")
+	var out []KV
+	for i := 0; i < n; i++ {
+		l := fmt.Sprintf("%s%d-", label, i)
+		if len(out) > 0 && rapid.IntRange(0, 4).Draw(t, l+"dup") == 0 {
+			// the same parameter once more (first / last value wins differently in different readers)
+			kv := genLoginParam(t, l, c, prev)
+			kv.K = out[rapid.IntRange(0, len(out)-1).Draw(t, l+"dupof")].K
+			out = append(out, kv)
+			continue
+		}
+		out = append(out, genLoginParam(t, l, c, prev))
+	}
+	return out
+}
+
+// genLoginRequest fills the login-request fields of a login op: half of the logins are the plain GET of the login URL.
+func genLoginRequest(t *rapid.T, label string, c *Case, o *Op, prev []string) {
+	switch pick(t, label+"req", "plain", "plain", "plain", "query", "query", "query", "post", "post+query") {
+	case "query":
+		o.LoginQuery = genLoginParams(t, label+"q", c, prev)
+	case "post":
+		o.LoginMethod = "POST"
+		o.LoginForm = genLoginParams(t, label+"f", c, prev)
+	case "post+query":
+		o.LoginMethod = "POST"
+		o.LoginQuery = genLoginParams(t, label+"q", c, prev)
+		o.LoginForm = genLoginParams(t, label+"f", c, prev)
+	}
+	// cookies already present: what other deployments / earlier attempts left in the jar, manipulated before the request
+	if rapid.IntRange(0, 4).Draw(t, label+"jar") == 0 {
+		nm := rapid.IntRange(1, 2).Draw(t, label+"nm")
+		for i := 0; i < nm; i++ {
+			o.LoginMuts = append(o.LoginMuts, genMutFree(t, fmt.Sprintf("%slm%d", label, i)))
+		}
+	}
+}
+
+func encodeKV(kvs []KV) string {
+	parts := make([]string, 0, len(kvs))
+	for _, kv := range kvs {
+		parts = append(parts, url.QueryEscape(kv.K)+"="+url.QueryEscape(kv.V))
+	}
+	return strings.Join(parts, "&")
 }
 
 // ---- cookie keys --------------------------------------------------------------------
@@ -522,6 +635,7 @@ func genCase0(t *rapid.T) Case {
 		if k == "login" {
 			o := Op{Kind: "login", Browser: b, State: genState(t, label+"state", prevStates)}
 			o.Extra = pick(t, label+"extra", "", "", "", "custom", "prompt", "locales")
+			genLoginRequest(t, label+"login-", &c, &o, prevStates)
 			prevStates = append(prevStates, o.State)
 			latest[b] = nAttempts
 			consumed[b] = false
@@ -952,6 +1066,7 @@ func (w *world) login(i int, o Op) {
 	if state == "huge" {
 		state = strings.Repeat("h", hugeState)
 	}
+	prior := w.latestIn(o.Browser) // the attempt whose cookies this jar probably still holds
 	a := &attempt{browser: o.Browser, state: state}
 	w.att = append(w.att, a)
 	idx := len(w.att) - 1
@@ -976,13 +1091,75 @@ func (w *world) login(i int, o Op) {
 		return v
 	}, w.rp, params...)
 	j := w.jar(o.Browser)
-	req := httptest.NewRequest("GET", rpOrigin+"/auth/login", nil)
+	// the login request: cookies the jar holds (after the generated manipulations), generated query / form parameters
+	w.keyNotes = nil
+	for _, m := range o.LoginMuts {
+		l := w.applyMut(j, m, o.Browser, "", prior)
+		if strings.HasSuffix(l, "noop") || l == "mint-excluded" {
+			l = "noop"
+		}
+		w.res.Label("login-jar:" + l)
+	}
+	target := rpOrigin + "/auth/login"
+	if len(o.LoginQuery) > 0 {
+		target += "?" + encodeKV(o.LoginQuery)
+	}
+	var req *http.Request
+	if o.LoginMethod == "POST" {
+		req = httptest.NewRequest("POST", target, strings.NewReader(encodeKV(o.LoginForm)))
+		req.Header.Set("Content-Type", "application/x-www-form-urlencoded")
+	} else {
+		req = httptest.NewRequest("GET", target, nil)
+	}
 	if hdr := j.header(); hdr != "" {
 		req.Header.Set("Cookie", hdr)
+		w.res.Label("login-req:cookies-present")
 	}
+	w.labelLoginRequest(o)
 	w.hits = handlerHits{}
 	resp := vkit.Serve(h, nil, req)
 	w.judgeLogin(i, idx, a, issued, resp, j)
+}
+
+// labelLoginRequest: histogram classes of the login request (which bound parameter names it carries, duplicates, method).
+func (w *world) labelLoginRequest(o Op) {
+	all := append(append([]KV(nil), o.LoginQuery...), o.LoginForm...)
+	if len(all) == 0 && o.LoginMethod != "POST" {
+		w.res.Label("login-req:plain")
+		return
+	}
+	kind := "get+query"
+	if o.LoginMethod == "POST" {
+		kind = "post-form"
+		if len(o.LoginQuery) > 0 {
+			kind = "post-form+query"
+		}
+	}
+	w.res.Label("login-req:" + kind)
+	seen := map[string]int{}
+	var owned []string
+	for _, kv := range all {
+		seen[kv.K]++
+		if contains(ownedParams, kv.K) {
+			if seen[kv.K] == 1 {
+				owned = append(owned, kv.K)
+			}
+			w.res.Label("login-req:names:" + kv.K)
+		} else {
+			w.res.Label("login-req:names:(not-bound-by-the-statement)")
+		}
+	}
+	for _, n := range seen {
+		if n > 1 {
+			w.res.Label("login-req:duplicate-parameter")
+			break
+		}
+	}
+	if w.c.PKCE && (seen["code_challenge"] > 0 || seen["code_challenge_method"] > 0) {
+		w.res.Label("login-req:pkce-parameters-with-pkce-on")
+	}
+	sort.Strings(owned)
+	w.classes = append(w.classes, "login:"+kind+"/"+strings.Join(owned, "+"))
 }
 
 // judgeLogin: the browser (jar j) receives the RP's answer to a login request; the oracle looks at the cookies and the
@@ -1688,6 +1865,10 @@ var prop = vkit.Prop[Case]{
 	ID: "C17",
 	Rule: "cases = RP (rp.NewRelyingPartyOIDC, cookie handler keys A = generated hash key of 1-128 bytes (classes 1-15/16/17-31/32/33-63/64/65/66-128) and no / AES-128 / AES-192 / AES-256 encryption key, PKCE on/off, JWT-profile client authentication on/off, client registered as basic/post/none/private_key_jwt, " +
 		"oauth2 auth style auto/params/header, default or application handlers) against an in-process provider (both routers) x browser history of 1-4 (thorough 1-5) logins (rp.AuthURLHandler) in 1-2 cookie jars interleaved with " +
+		"[each login = a generated LOGIN REQUEST: plain GET (3 in 8), or GET with 1-6 query parameters, or POST with a form body (with or without query) - parameter names drawn from the parameters the statement binds (state, client_id, redirect_uri, scope, " +
+		"response_type, code_challenge, code_challenge_method), further OAuth/OIDC names (nonce, prompt, login_hint, ui_locales, request, code_verifier ...) and arbitrary names, values = competing values (other client, foreign redirect URI, wider scope, plain / S256 / junk " +
+		"challenge and method, earlier states) or free strings, one parameter in five repeats an earlier name; one login in five meets a jar manipulated beforehand (foreign / tampered / swapped cookies already present); the authorization URL is judged by the same " +
+		"oracle whatever the login request says] " +
 		"1-4 (thorough 1-6) callbacks (rp.CodeExchangeHandler), each callback = (jar manipulation list, query): matching, earlier attempt, other browser's attempt, restored earlier cookies, state omitted/empty/" +
 		"prefix/suffix/case/other, flipped/truncated/extended cookie, cookie minted (by a cookie handler of the library built with the other keys, or by the model codec) under the keys of another deployment = 3 generated foreign key pairs per case derived from A " +
 		"(hash key unrelated / equal / one byte or the whole tail differing at a generated position incl. 0,15,16,31,32,63,64,65,last / A continued by 1-16 bytes / A cut short; encryption key equal / unrelated / one byte differing / other AES size sharing the prefix / present on one side only; " +
